@@ -316,8 +316,15 @@ pub fn run(cx: &mut Ctx) {
                 let sl = rng.range(8, 64);
                 let hl = rng.range(16, 128);
                 let salt = rng.bytes(sl);
-                let cfg = Config::interactive().with_opslimit(ops).with_memlimit(memlimit).with_hash_length(hl).with_salt_length(sl);
-                let case = || json!({"op":"PwHash::hash_with_salt+to_string","saltlen":sl,"hashlen":hl});
+                // the salt container decides the salt; a config whose salt_length says something else must not matter
+                let cfg_salt = match rng.below(3) {
+                    0 => None,
+                    1 => Some(sl),
+                    _ => Some(rng.range(8, 64)),
+                };
+                let (cfg, cfg_desc) = build_config(&mut rng, ops, memlimit, hl, cfg_salt);
+                cx.cover("config_salt_length_vs_salt", match cfg_salt { None => "default(16)", Some(x) if x == sl => "equal", Some(_) => "different" });
+                let case = || json!({"op":"PwHash::hash_with_salt+to_string","saltlen":sl,"hashlen":hl,"config_salt_length":cfg_salt,"config_built_as":cfg_desc});
                 if let Some(Ok(ph)) = call(cx, "C10|PwHash::hash_with_salt", "PwHash::hash_with_salt", case, || PwHash::<Vec<u8>, Vec<u8>>::hash_with_salt(&pw, salt.clone(), cfg.clone())) {
                     if let Some(s) = call(cx, "C10|PwHash::to_string", "PwHash::to_string", case, || ph.to_string()) {
                         check_dryoc_string(cx, "PwHash::to_string", &s, &pw, "argon2id", ops, memlimit, Some(&salt), hl);
